@@ -20,7 +20,7 @@ INFER = [
     ("quantized_relu", dict(bits=4, integer=1)), ("quantized_relu", dict(bits=6, integer=2, negative_slope=0.125)), ("quantized_relu", dict(bits=4, integer=1, use_sigmoid=1)),
     ("quantized_tanh", dict(bits=4)), ("quantized_tanh", dict(bits=4, use_real_tanh=True)), ("quantized_sigmoid", dict(bits=6)), ("quantized_sigmoid", dict(bits=4, symmetric=True)),
     ("quantized_po2", dict(bits=4)), ("quantized_po2", dict(bits=6, max_value=4.0)), ("quantized_relu_po2", dict(bits=4)), ("quantized_relu_po2", dict(bits=4, negative_slope=0.25)),
-    ("binary", dict(alpha=1.0)), ("binary", dict()), ("binary", dict(alpha="auto")), ("ternary", dict(alpha="auto")), ("ternary", dict(alpha="auto_po2")),
+    ("binary", dict(alpha=1.0)), ("binary", dict()), ("binary", dict(alpha=0.5, use_01=True)), ("ternary", dict(alpha="auto")), ("ternary", dict(alpha="auto_po2")),
     ("quantized_hswish", dict(bits=6, integer=2)),
 ]
 STOCH_CLASSES = [
@@ -69,18 +69,19 @@ def train_fixed(run, idx, cls, kw, rng):
   ce = "(fp.mul RNE (fp.roundToIntegral RTP (fp.mul RNE {1} %s)) %s)" % (inv, L(step))
   clampf = lambda e: "(fp.min (fp.max %s %s) %s)" % (e, L(lo), L(hi))
   adjacent = "(or (fp.eq {0} %s) (fp.eq {0} %s))" % (clampf(fl), clampf(ce))
-  run.add("T%02d_adjacent" % idx, ir.build_smt(b, dom + [ir.L("(not %s)" % adjacent, o, u)]), meta=dict(meta, clause="adjacent_code"), timeout=1200)
+  gv = ["x_b"] + [n.attr for n in us]
+  run.add("T%02d_adjacent" % idx, ir.build_smt(b, dom + [ir.L("(not %s)" % adjacent, o, u)], get_values=gv), meta=dict(meta, clause="adjacent_code"), timeout=1200)
   run.add_twin("T%02d_adjacent" % idx, ir.build_smt(b, dom + [ir.L("(= {0} {0})", o)]), meta=meta)
   if cls in ("quantized_bits", "quantized_linear") or (cls == "quantized_relu" and not kw.get("negative_slope")):
     from .c02 import is_code
-    run.add("T%02d_code_fixed" % idx, ir.build_smt(b, [qz.finite_normal(x), is_code(x, fmt), ir.L("(not (fp.eq {0} {1}))", o, x)]), meta=dict(meta, clause="codes_unchanged"), timeout=1200)
+    run.add("T%02d_code_fixed" % idx, ir.build_smt(b, [qz.finite_normal(x), is_code(x, fmt), ir.L("(not (fp.eq {0} {1}))", o, x)], get_values=gv), meta=dict(meta, clause="codes_unchanged"), timeout=1200)
   # threshold lemma (unbiasedness for a uniform draw): inside the range, the upper code is chosen exactly when r <= frac(u/step)
   if len(us) == 1:
     r_ = us[0]
     frac = "(fp.sub RNE (fp.mul RNE {1} %s) (fp.roundToIntegral RTN (fp.mul RNE {1} %s)))" % (inv, inv)
     inside = "(and (fp.gt {1} %s) (fp.lt {1} %s) (not (fp.eq %s %s)))" % (L(lo), L(hi), fl, ce)
     lemma = "(= (fp.eq {0} %s) (fp.leq {2} %s))" % (ce, frac)
-    run.add("T%02d_threshold" % idx, ir.build_smt(b, dom + [ir.L("(and %s (not %s))" % (inside, lemma), o, u, r_)]), meta=dict(meta, clause="unbiased_threshold"), timeout=1200)
+    run.add("T%02d_threshold" % idx, ir.build_smt(b, dom + [ir.L("(and %s (not %s))" % (inside, lemma), o, u, r_)], get_values=gv), meta=dict(meta, clause="unbiased_threshold"), timeout=1200)
 
 
 def infer_equal(run, idx, cls, kw, rng):
@@ -220,20 +221,19 @@ def triage(run):
 
 
 def _fpval(v):
-  """'(fp #b0 #x7e #b000...)' -> float"""
+  """'(fp #b0 #x7e #b000...)' / '(fp #b0 #b01111110 #b000...)' -> float"""
   import re
   if v is None:
     return 0.5
   if isinstance(v, (int, float)):
     return float(v)
-  m = re.match(r"\(fp #b([01]) #[xb]([0-9a-f]+) #[xb]([0-9a-f]+)\)", str(v))
-  if not m:
+  toks = re.findall(r"#([xb])([0-9a-fA-F]+)", str(v))
+  if len(toks) != 3:
+    if "zero" in str(v):
+      return 0.0
     return 0.5
-  s = int(m.group(1))
-  e = int(m.group(2), 16) if "#x" + m.group(2) in str(v) else int(m.group(2), 2)
-  mm = m.group(3)
-  man = int(mm, 2) if set(mm) <= set("01") and len(mm) == 23 else int(mm, 16)
-  return float(ir.bits_f32((s << 31) | (e << 23) | man))
+  vals = [int(t, 16 if k == "x" else 2) for k, t in toks]
+  return float(ir.bits_f32((vals[0] << 31) | (vals[1] << 23) | vals[2]))
 
 
 def run(tier, seed):
@@ -272,7 +272,8 @@ def run(tier, seed):
   r.bounds = ["training phase: %d fixed-point configurations; x symbolic (exactness region of C01), the random draw a symbolic value r in [0,1)" % len(train),
               "inference phase: %d configurations with use_stochastic_rounding and %d stochastic_binary/ternary configurations, compared for all "
               "inputs with their deterministic counterparts (scalar or (2,2) tensors)" % (len(infer), len(STOCH_CLASSES)),
-              "power-of-two and binary/ternary *training-phase* distributions are not covered (inference side only)",
+              "power-of-two and binary/ternary *training-phase* distributions are not covered (inference side only); binary with a data-dependent "
+              "scale and use_stochastic_rounding is compared on probe tensors only (its exact miter does not finish) and is outside the claim",
               "unbiasedness is stated as the threshold lemma 'upper code iff r <= frac'; the discreteness of the uniform generator is outside the claim"]
   r.assumptions = ["K.learning_phase is absent under the pinned Keras 3: environment stub returning 0 or 1", "RandomUniform = arbitrary value in [0,1)",
                    "replay of training-phase counterexamples stubs tf.random.uniform with the solver's draw"]
